@@ -1,5 +1,6 @@
 /-
-C12 line-protocol driver over `GPVerif.Model.Noise` (exact ℚ for operators and polynomial parts, `Float` for
+C12 line-protocol driver over the definitions REGENERATED from the source (`GPVerif.Gen.NoiseModels`, translator G7;
+proved equal to the specification `GPVerif.Model.Noise` in Props/C12.lean) (exact ℚ for operators and polynomial parts, `Float` for
 the closed forms with `log`).  One reply line per request line.
 
   homo  n s  c [ν₁ … νₙ]                     → R            (c = 1: call-time noise follows)
@@ -8,12 +9,13 @@ the closed forms with `log`).  One reply line per request line.
   marg  <C as r c v…> <R as r c v…>          → C + R
   elp   y m v r                               → quad  bits(Float expectedLogProb)   (IEEE-754 bit pattern as a natural number)
   lm    y m v r                               → quad  v+r  bits(Float logMarginal)
-  route nl na nn                              → none | l:a:ν …   (nn = -1: no noise kwarg; N = no noise)
+  route (call|forward) nl na nn               → none | l:a:ν …   (nn = -1: no noise kwarg; N = no noise)
 -/
 import GPVerif.Model.Noise
+import GPVerif.Gen.NoiseModels
 import GPVerif.Model.Proto
 
-open Proto Noise
+open Proto Noise Gen.NoiseModels
 
 def ratToFloat (q : Rat) : Float := Float.ofInt q.num / Float.ofNat q.den
 
@@ -42,7 +44,7 @@ def stepHomo (ts : List String) : Option String := do
     let s ← parseRat? s
     let (call, rest) ← takeCall n rest
     if rest ≠ [] then none else
-    some (showMat (homoNoise s n call))
+    some (showMat (homoForward s n call))
   | _ => none
 
 def stepFixed (ts : List String) : Option String := do
@@ -59,7 +61,7 @@ def stepFixed (ts : List String) : Option String := do
       | _ => none : Option (Option Rat × List String))
     let (call, rest) ← takeCall n rest
     if rest ≠ [] then none else
-    some (showMat (fixedNoise stored.toArray learned n call))
+    some (showMat (fixedShaped stored.toArray learned n call))
   | _ => none
 
 def takeTask (t : Nat) (ts : List String) : Option (Option (TaskNoise t Rat) × List String) :=
@@ -89,7 +91,7 @@ def stepMT (ts : List String) : Option String := do
       | ["G", s] => (parseRat? s).map some
       | _ => none : Option (Option Rat))
     let cfg : MTConfig t Rat := { task := task, global := glob }
-    some (showMat (multitaskNoise cfg n (il == "1")))
+    some (showMat (mtShaped cfg n (il == "1")))
   | _ => none
 
 def stepMarg (ts : List String) : Option String := do
@@ -98,7 +100,7 @@ def stepMarg (ts : List String) : Option String := do
   if rest ≠ [] ∨ r1 ≠ c1 ∨ r2 ≠ c2 ∨ r1 ≠ r2 then none else
   let Cm : DMat r1 r1 Rat := DMat.ofRaw C
   let Rm : DMat r1 r1 Rat := DMat.ofRaw R
-  some (showMat (marginal Cm Rm))
+  some (showMat (marginalExpr Cm Rm))
 
 def stepScalar (which : String) (ts : List String) : Option String := do
   match ← parseRats? ts with
@@ -106,20 +108,20 @@ def stepScalar (which : String) (ts : List String) : Option String := do
     let (fy, fm, fv, fr) := (ratToFloat y, ratToFloat m, ratToFloat v, ratToFloat r)
     if which = "elp" then
       if r = 0 then none else
-      some s!"{showRat (elpQuad y m v r)} {(expectedLogProb Float.log log2pi 0.5 fy fm fv fr).toBits.toNat}"
+      some s!"{showRat (-2 * expectedLogProbExpr (fun _ => (0 : Rat)) 0 (1 / 2) y m v r)} {(expectedLogProbExpr Float.log log2pi 0.5 fy fm fv fr).toBits.toNat}"
     else
       if v + r = 0 then none else
-      some s!"{showRat (lmQuad y m v r)} {showRat (v + r)} {(logMarginal Float.log log2pi 0.5 fy fm fv fr).toBits.toNat}"
+      some s!"{showRat (-2 * logMarginalExpr (fun _ => (0 : Rat)) 0 (1 / 2) y m v r)} {showRat (v + r)} {(logMarginalExpr Float.log log2pi 0.5 fy fm fv fr).toBits.toNat}"
   | _ => none
 
 def stepRoute (ts : List String) : Option String := do
   match ts with
-  | [nl, na, nn] =>
+  | [which, nl, na, nn] =>
     let nl ← nl.toNat?
     let na ← na.toNat?
     let nn ← nn.toInt?
     let noise : Option (List Nat) := if nn < 0 then none else some (List.range nn.toNat)
-    match route (List.range nl) (List.range na) noise with
+    match (if which = "forward" then listForwardRoute else listCallRoute) (List.range nl) (List.range na) noise with
     | none => some "none"
     | some out => some (" ".intercalate (out.map fun (l, a, ν) =>
         s!"{l}:{a}:{match ν with | none => "N" | some k => toString k}"))
